@@ -74,6 +74,16 @@ theorem other_id_independent (now id : Nat) (recs : List Transfer) (m : PMsg) (h
     findRec (completePack now recs m).1 id = findRec recs id :=
   completePack_other now id recs m (Or.inr h)
 
+/-- **A package that announces another total than the transfer under way is not part of it**: while packets of a
+transfer with `bodies.length` packets are being collected, a package of the same message ID with another total (that is
+not a first package, which starts a new transfer) changes nothing and delivers nothing — a message is never assembled
+from parts of two different messages. (This failed on the original code — defect D28, repaired in /repo.) -/
+theorem other_total_not_part_of_transfer (now id : Nat) (bodies : List Bytes) (seen : List Nat) (recs : List Transfer)
+    (ha : Active id bodies seen recs) (m : PMsg) (hid : m.h.id = id) (hno1 : m.h.no ≠ 1)
+    (hsum : m.h.sum ≠ bodies.length) :
+    completePack now recs m = (recs, .none) :=
+  completePack_other_total now id bodies seen recs ha m hid hno1 hsum
+
 /-- Non-vacuity: three bodies, arrival 1,3,3,2 with an impossible packet 0 in between, is admissible. -/
 example : Admissible 0x0801 [[1], [2, 2], [3]] ⟨⟨0x0801, 0, 0, 1, 0, 2, [], 7, 3, 2⟩, [2, 2], false, []⟩ :=
   .target _ rfl rfl (by decide) (by decide) rfl
